@@ -18,8 +18,9 @@ CHECKS = {
     },
 }
 
-_SCHED_NOTE = ('abstract tier: FSM answers, db.targets/db.next, chronicle.append (recorder) and the worker '
-               'processes are harness-owned environment; workers reply only to tasks they were sent; '
+_SCHED_NOTE = ('abstract tier: FSM answers, db.targets/db.next and the worker processes are harness-owned '
+               'environment (chronicle.append is the real function on a scratch journal that is read back); '
+               'workers reply only to tasks they were sent; '
                'engines: 10 canonical DAG shapes (chain, fork, join, diamond, independent pair, '
                'task->analysis(->task), regression leaf) x targets {A} and {A,B}; <= R external run '
                'requests per history (R=2 quick, 3 thorough); snapshot/restore validated by full replays')
@@ -39,7 +40,8 @@ CHECKS.update({
         'text': 'Same state graph as C01 plus an explicit-farm variant (0-2 workers registering and disconnecting in '
         'every order). Every state: no two executions of one (algorithm,target) released and unanswered; every '
         'released unit is in exactly one of queue / handed to one worker; every reply is recorded exactly once '
-        'and its report propagated exactly once; crew() busy list equals the units in flight.',
+        'and its report propagated exactly once; crew() busy list equals the units in flight. Reload jobs: the '
+        'pipeline reloads (notify_all, farm.clear, schedule.build) at any moment with tasks queued for want of a worker.',
         'note': _SCHED_NOTE,
     },
     'C04': {
@@ -49,16 +51,19 @@ CHECKS.update({
         'or in flight the queue, to-do, doing and crew views are empty; step: after a dispatch no unit with idle '
         'upstream stays pending; liveness on the explored graph restricted to dispatch/reply events: no cycle '
         '(Tarjan SCC) and every sink is quiescent. The last clause (every waiter on "queue empty" / "nothing '
-        'executing" is eventually satisfied) is decided with the real waiter threads by the drain-and-run probe of C12.',
+        'executing" is eventually satisfied) is decided with the real waiter threads by the drain-and-run probe of C12. '
+        'Fault event: a dispatch during which the first db.next() draw raises (<=1 quick, <=2 thorough per history).',
         'note': _SCHED_NOTE,
     },
     'C05': {
         'level': 'model_checking', 'design_ref': 'DESIGN.md section 2 (C05)',
-        'technique': 'explicit-state exploration, frame-condition oracle on every failure/invalid reply transition',
+        'technique': 'explicit-state exploration, frame-condition oracle on every failure/invalid reply transition; exhaustive run-ending enumeration through the real worker',
         'text': 'Same state graph; on every failure / invalid reply transition in every reachable scheduler state the '
         'todo/doing/do sets of all nodes are compared before and after Hand._res: the target is withdrawn from '
         'every transitive dependent, nothing else changes, nothing grows, schedule.update/organize is not '
-        'reached, exactly one history record with the right status.',
+        'reached, exactly one history record with the right status. Worker tier: the real worker.cluster.execute + '
+        'worker.Context + generated task package against the real farm over an in-memory socket, the unit ending in '
+        'each of 10 ways (incl. SystemExit / KeyboardInterrupt / bare BaseException) x 3 scheduler scenarios x 2 engines.',
         'note': _SCHED_NOTE,
     },
     'C18': {
@@ -129,7 +134,9 @@ CHECKS.update({
         'names an existing file, staging empty. Crash: for each selected history the last update is re-run in a forked '
         'child on a copy of the store directory and killed before its k-th mutating posix/_io call for every k; a '
         'second child re-opens from disk: catalogue opens, no entry refers to a missing file, the update is repeated '
-        'and the oracle re-checked.',
+        'and the oracle re-checked. Two-value state vectors (all pairs of updates over 3 contents per slot). Purge '
+        'tool: the real db/tools/purge.py __main__ with --context-* options naming one store while the environment '
+        'names another, all 15 pairs of store histories: no catalogue entry of either store dangles.',
         'note': _STORE_NOTE + '; process-crash model (completed system calls persist, user-space buffers are lost); '
         'staging and store on one file system; read-only calls are merged with the next mutating call (same disk state).',
     },
@@ -139,7 +146,8 @@ CHECKS.update({
         'text': 'Every subset (256) of an 8-key universe with prefix-colliding names, 2 insertion orders, 3 registration '
         'paths; per store: name/id bijection, gap-free ids, id stability, chain resolution, next run id, all again '
         'after close/reopen from disk; then 11 removes, every trace and every version reset compared with a reference '
-        'computed on exact name equality.',
+        'computed on exact name equality; a digit-boundary store (ids 1/10/11, runs 8..101); db.tools.worm.consume for '
+        'all 23 criteria tuples over {wildcard, value} per field incl. run id 0.',
         'note': _STORE_NOTE,
     },
 })
@@ -250,8 +258,10 @@ CHECKS.update({
         'violation. Store tier: every released unit is really executed (task message -> pl.worker.Context.run -> Task.do '
         '-> Dataset.load/update -> shelve over the loopback wire) in every completion order and for every choice of which '
         'root values change; at every quiescent state a fresh load of every (target, algorithm, value) equals the '
-        'from-scratch evaluation in dependency order.',
-        'note': _SCHED_NOTE + '; store tier: a unit executes atomically when its reply is delivered; task-kind algorithms; '
+        'from-scratch evaluation in dependency order. Store-tier configurations: work and reply of a unit as separate '
+        'events (replies of re-runs under different run ids in either order), root algorithms calling ds.update() after '
+        'each value; the reply carries the list Context.run returned verbatim.',
+        'note': _SCHED_NOTE + '; store tier: a unit executes atomically when its reply is delivered except in the split configuration; task-kind algorithms; '
         'root contents carry (algorithm, value, target, epoch); resource-metric values are excluded from the state.',
     },
 })
